@@ -29,3 +29,31 @@ package protocol
 //@     invariant 0 <= start && start < old(len(momentums)) && len(momentums) == old(len(momentums)) - start && momentums.arr == old(momentums.arr) && momentums.off == old(momentums.off) + start
 //@   loop 3
 //@     invariant 0 <= start && start < old(len(momentums)) && len(momentums) == old(len(momentums)) - start && momentums.arr == old(momentums.arr) && momentums.off == old(momentums.off) + start
+
+// ======================================================================================================================
+// Property C15: no message from a remote peer can make the node send more than the protocol's stated limits (512 hashes and
+// 128 momentums per reply) or terminate the process.
+
+// the chain bridge never returns more hashes than asked for
+//@ func chainManager.GetBlockHashesFromHash(self, hash, amount) -> (hashes, err)
+//@   ensures err == nil ==> len(hashes) <= amount
+//@   modifies nothing
+//@ func chainManager.GetBlockByNumber(self, num) -> (m, err)
+//@   modifies nothing
+//@ func chainManager.CurrentBlock(self)
+//@   ensures result != nil
+//@   modifies nothing
+//@ func chainManager.GetBlock(self, hash)
+//@   modifies nothing
+//@ func chainManager.HasBlock(self, hash)
+//@   modifies nothing
+
+//@ func chainBridge.GetBlockHashesFromHash(c, hash, amount) -> (hashes, err)
+//@   ensures[at-most-amount] err == nil ==> len(hashes) <= amount
+
+// every reply is capped, whatever the request says
+//@ func ProtocolManager.handleMsg(pm, p)
+//@   at-call SendBlockHashes assert[at-most-512-hashes] len(arg1) <= 512
+//@   at-call SendBlocks assert[at-most-128-momentums] len(arg1) <= 128
+//@   loop 2
+//@     invariant len(blocks) < 128
